@@ -212,11 +212,15 @@ fn run_case(case: &str, c: &Value, rng: &mut Rng, scratch: &Scratch) -> Vec<Valu
     let rs = gi(c, "rs") as usize;
     let fc = gi(c, "fc") as u32;
     let offs: Vec<usize> = ga(c, "offs").iter().map(|x| x.as_u64().unwrap() as usize).collect();
+    // column names and (for the ordered key classes) the key column itself come from the specification
+    let fnames: Vec<String> = ga(c, "fnames").iter().map(|x| x.as_str().unwrap().to_string()).collect();
+    let spec_keys: Vec<i64> = ga(c, "keys").iter().map(|x| x.as_i64().unwrap()).collect();
+    let spec_absent: Vec<i64> = ga(c, "absent").iter().map(|x| x.as_i64().unwrap()).collect();
     let keyty = if key > 0 { fields[key - 1].0.clone() } else { "-".to_string() };
     let str_in_arr = fields.iter().any(|(t, a)| t == "String" && *a > 0);
     let arr_gt1 = fields.iter().any(|(_, a)| *a > 1);
     evs.push(json!({"ev":"Reset","case":case,"schema":c["schema"],"key":key,"keyty":keyty,"n":n,"strcls":cls,
-        "nf":fields.len(),"strInArr":str_in_arr,"arrGt1":arr_gt1}));
+        "nf":fields.len(),"strInArr":str_in_arr,"arrGt1":arr_gt1,"namecls":gs(c,"namecls"),"keyorder":gs(c,"keyorder")}));
 
     // ---- the table and its byte image (harness-owned encoder, layout numbers from TLC) ----
     let pool = pool(cls, rng);
@@ -250,13 +254,18 @@ fn run_case(case: &str, c: &Value, rng: &mut Rng, scratch: &Scratch) -> Vec<Valu
     let mut nref = 0usize;
     let mut kinds_used: std::collections::BTreeSet<String> = Default::default();
     let mut table: Vec<Vec<Vec<V>>> = Vec::with_capacity(n);
-    for _ in 0..n {
+    for ri in 0..n {
         let mut rec = Vec::new();
         for (fi, (ty, arr)) in fields.iter().enumerate() {
             let elems = if *arr == 0 { 1 } else { *arr };
             let mut cells = Vec::new();
             for _ in 0..elems {
                 let v = gen_val(ty, fi + 1 == key, n, pool.len(), cls, rng);
+                let v = if fi + 1 == key && !spec_keys.is_empty() {
+                    if ty == "Int32" { V::I32(spec_keys[ri] as i32) } else { V::U32(spec_keys[ri] as u32) }
+                } else {
+                    v
+                };
                 let v = if let V::Str(i, _) = v {
                     let base = if rng.chance(1, 2) { off_of[i] } else { off_alt[i] };
                     let kind = refkinds[nref % refkinds.len()].as_str();
@@ -335,9 +344,9 @@ fn run_case(case: &str, c: &Value, rng: &mut Rng, scratch: &Scratch) -> Vec<Valu
         let mut s = Schema::new("T");
         for (i, (ty, arr)) in fields.iter().enumerate() {
             if *arr == 0 {
-                s.add_field(SchemaField::new(format!("f{i}"), ftype(ty)));
+                s.add_field(SchemaField::new(fnames[i].clone(), ftype(ty)));
             } else {
-                s.add_field(SchemaField::new_array(format!("f{i}"), ftype(ty), *arr));
+                s.add_field(SchemaField::new_array(fnames[i].clone(), ftype(ty), *arr));
             }
         }
         if key > 0 {
@@ -507,8 +516,8 @@ fn run_case(case: &str, c: &Value, rng: &mut Rng, scratch: &Scratch) -> Vec<Valu
         for k in present.iter().step_by(step).take(48) {
             probe.push((*k, true));
         }
-        for k in [0u32, 2, 0x7fff_ffff, 0xdead_beef, 5] {
-            if !have.contains(&k) {
+        for k in [0u32, 2, 0x7fff_ffff, 0xdead_beef, 5].into_iter().chain(spec_absent.iter().map(|k| *k as i32 as u32)) {
+            if !have.contains(&k) && !probe.iter().any(|(p, _)| *p == k) {
                 probe.push((k, false));
             }
         }
